@@ -208,22 +208,30 @@ Definition cid_of_term (v : term) : cid := v - GBASE.
    harness maps every unknown graph name to this id *)
 Definition FRESHG : cid := 900.
 
-Definition m_target (dg : cid) (mu : sol) (g : option gterm) : cid :=
+(* the graph a template block writes to; None = nothing can happen there:
+   removing from the graph that get_context(None) has just minted *)
+Definition m_target (ins : bool) (dg : cid) (mu : sol) (g : option gterm) : option cid :=
   match g with
-  | None => dg
-  | Some (TGConst c) => c
-  | Some (TGVar v) => match lookup v mu with Some t => cid_of_term t | None => FRESHG end
+  | None => Some dg
+  | Some (TGConst c) => Some c
+  | Some (TGVar v) =>
+      match lookup v mu with
+      | Some t => Some (cid_of_term t)
+      | None => if ins then Some FRESHG else None
+      end
   end.
 
-Definition m_quads (k i : N) (dg : cid) (tm : tmpl) (mu : sol) : list quad :=
-  flat_map (fun jb => map (fun t => (t, m_target dg mu (fst (snd jb))))
-                          (fill (fresh k i (fst jb)) mu (snd (snd jb))))
+Definition m_quads (ins : bool) (k i : N) (dg : cid) (tm : tmpl) (mu : sol) : list quad :=
+  flat_map (fun jb => match m_target ins dg mu (fst (snd jb)) with
+                      | Some c => map (fun t => (t, c)) (fill (fresh k i (fst jb)) mu (snd (snd jb)))
+                      | None => []
+                      end)
            (enum_from 0 (blocks tm)).
 
-Definition m_all (k : N) (dg : cid) (tm : option tmpl) (omega : list sol) : list quad :=
+Definition m_all (ins : bool) (k : N) (dg : cid) (tm : option tmpl) (omega : list sol) : list quad :=
   match tm with
   | None => []
-  | Some t => flat_map (fun im => m_quads k (fst im) dg t (snd im)) (enum_from 0 omega)
+  | Some t => flat_map (fun im => m_quads ins k (fst im) dg t (snd im)) (enum_from 0 omega)
   end.
 
 Definition del_quads (l : list quad) (s : dstate) : dstate :=
@@ -258,8 +266,10 @@ Definition has_gvar (tm : tmpl) : bool :=
 Definition dw_one (e : env) (k : N) (tm : tmpl) (s : dstate) (im : N * sol) : dstate :=
   let mu := snd im in
   let s1 := g_isub (ctx_graph e) (fill (fresh k (fst im) 0) mu (t_triples tm)) s in
-  fold_left (fun s jb => g_isub (GCtx (m_target 0 mu (Some (fst (snd jb)))))
-                                (fill (fresh k (fst im) (fst jb)) mu (snd (snd jb))) s)
+  fold_left (fun s jb => match m_target false 0 mu (Some (fst (snd jb))) with
+                         | Some c => g_isub (GCtx c) (fill (fresh k (fst im) (fst jb)) mu (snd (snd jb))) s
+                         | None => s
+                         end)
             (enum_from 1 (t_quads tm)) s1.
 
 Definition evalDeleteWhere (e : env) (k : N) (tm : tmpl) (omega : list sol) (s : dstate) : res :=
@@ -290,13 +300,13 @@ Definition evalModify (e : env) (k : N) (w : option cid) (ud : bool)
           | None => Raise s
           end
         else
-          let s1 := del_quads (m_all k dg del omega) s in
+          let s1 := del_quads (m_all false k dg del omega) s in
           if tm_has_quads ins then
             match ins with
             | Some t => Raise (add_triples dg (fill (fresh k 0 0) mu (t_triples t)) s1)
             | None => Raise s1
             end
-          else Ok (add_quads (m_all k dg ins omega) s1)
+          else Ok (add_quads (m_all true k dg ins omega) s1)
       end
     end
   else
@@ -304,7 +314,7 @@ Definition evalModify (e : env) (k : N) (w : option cid) (ud : bool)
               | Some c => c
               | None => match ctx_graph e with GCtx c => c | GSelf => 0 end
               end in
-    Ok (add_quads (m_all k dg ins omega) (del_quads (m_all k dg del omega) s)).
+    Ok (add_quads (m_all true k dg ins omega) (del_quads (m_all false k dg del omega) s)).
 
 (* _graphAll; None = ctx.dataset raised *)
 Definition graph_all (e : env) (g : gspec) (s : dstate) : option (list gref) :=
@@ -390,8 +400,8 @@ Fixpoint eval_from (e : env) (k : N) (ops : list uop) (s : dstate) : res :=
 
 Definition modify_prefix_one (k : N) (dg : cid) (del ins : option tmpl)
            (s : dstate) (im : N * sol) : dstate :=
-  let d := match del with Some t => m_quads k (fst im) dg t (snd im) | None => [] end in
-  let i := match ins with Some t => m_quads k (fst im) dg t (snd im) | None => [] end in
+  let d := match del with Some t => m_quads false k (fst im) dg t (snd im) | None => [] end in
+  let i := match ins with Some t => m_quads true k (fst im) dg t (snd im) | None => [] end in
   add_quads i (del_quads d s).
 
 Definition evalModify_prefix (k : N) (dg : cid) (del ins : option tmpl)
@@ -545,19 +555,32 @@ Definition ren_quad m (q : quad) : quad := (ren_triple m (fst q), snd q).
 Definition partial_ok (a b : qset) (m : list (term * term)) (x : term) : bool :=
   forallb (fun q => negb (mentions x q && all_assigned m q) || q_mem (ren_quad m q) b) a.
 
+(* (written with if-then-else: the virtual machine evaluates both arguments of
+   && and ||) *)
 Fixpoint iso_search (a b : qset) (xs ys : list term) (m : list (term * term)) : bool :=
   match xs with
   | [] => qseteqb (ren_quads m a) b
-  | x :: r => existsb (fun y => partial_ok a b ((x, y) :: m) x
-                                && iso_search a b r (srem N.eqb y ys) ((x, y) :: m)) ys
+  | x :: r =>
+      (fix try (cands : list term) : bool :=
+         match cands with
+         | [] => false
+         | y :: rest =>
+             if (if partial_ok a b ((x, y) :: m) x
+                 then iso_search a b r (srem N.eqb y ys) ((x, y) :: m) else false)
+             then true else try rest
+         end) ys
   end.
 
 (* necessary conditions checked first: same number of fresh nodes, same number
-   of distinct quads *)
+   of distinct quads, the quads of [a] without fresh nodes are in [b] *)
 Definition iso_eqb (a b : qset) : bool :=
-  Nat.eqb (length (fresh_of a)) (length (fresh_of b))
-  && Nat.eqb (length (dedup quad_eqb a)) (length (dedup quad_eqb b))
-  && iso_search a b (fresh_of a) (fresh_of b) [].
+  if Nat.eqb (length (fresh_of a)) (length (fresh_of b)) then
+    if Nat.eqb (length (dedup quad_eqb a)) (length (dedup quad_eqb b)) then
+      if forallb (fun q => negb (all_assigned [] q) || q_mem q b) a then
+        iso_search a b (fresh_of a) (fresh_of b) []
+      else false
+    else false
+  else false.
 
 (* ------------------------------------------------------------------ *)
 (* Known-finding triggers                                               *)
@@ -577,7 +600,7 @@ Definition shared_label (tm : tmpl) : bool :=
 
 (* F10c: some instantiated insertion is not a legal RDF triple *)
 Definition illegal_insert (e : env) (k : N) (tm : tmpl) (omega : list sol) : bool :=
-  existsb (fun im => negb (forallb (fun q => legal e (fst q)) (m_quads k (fst im) 0 tm (snd im))))
+  existsb (fun im => negb (forallb (fun q => legal e (fst q)) (m_quads true k (fst im) 0 tm (snd im))))
           (enum_from 0 omega).
 
 (* F10e: a GRAPH ?g block with ?g unbound that still produces triples *)
@@ -614,7 +637,8 @@ Definition op_kf (e : env) (k : N) (o : uop) : N :=
         match g with GDefault => 1 | GNamed => if is_ds e then 2 else 0 | _ => 0 end
       else 0
   | Drop _ g =>
-      if self_mode e && is_ds e then
+      if negb (has_dataset e) then match g with GDefault => 7 | _ => 0 end
+      else if self_mode e && is_ds e then
         match g with GDefault | GNamed => 2 | _ => 0 end
       else 0
   | Add _ a b =>
@@ -660,14 +684,15 @@ Definition model_obs (c : case) : obs :=
 
 Definition obs_eqb (a b : obs) : bool :=
   let '(qa, ka, ra) := a in let '(qb, kb, rb) := b in
-  iso_eqb qa qb && seteqb N.eqb ka kb && Bool.eqb ra rb.
+  if Bool.eqb ra rb then if seteqb N.eqb ka kb then iso_eqb qa qb else false else false.
 
 Definition spec_ok (c : case) (o : obs) : bool :=
   let '(q, kn, raised) := o in
   if in_scope (c_env c) (c_ops c) then
-    negb raised
-    && iso_eqb q (spec_from (c_env c) 0 (c_ops c) (c_quads c))
-    && forallb (fun x => N.eqb (snd x) 0 || memb N.eqb (snd x) kn) q
+    if raised then false
+    else if forallb (fun x => N.eqb (snd x) 0 || memb N.eqb (snd x) kn) q
+    then iso_eqb q (spec_from (c_env c) 0 (c_ops c) (c_quads c))
+    else false
   else true.
 
 Definition kf (c : case) : N := kf_from (c_env c) 0 (c_ops c).
